@@ -109,6 +109,11 @@ def judge (fs : List (List Char)) : String :=
     | none => "BAD\treg fields"
     | some (c, _) =>
       let valid : Str → Bool := fun n => match c.valid.find? (fun e => e.1 == n) with | some e => e.2 | none => false
+      -- the hypotheses of `registry_correct`, checked on every case: distinct keys, and a release
+      -- table that is a function of the version
+      let distinct {α} [BEq α] (l : List α) : Bool := l.length == l.eraseDups.length
+      if !distinct (c.keys.map (·.1)) then "BAD\tthe request repeats a key" else
+      if !(c.reg.all fun p => distinct (p.2.map (·.version))) then "BAD\ta package has two releases with the same version" else
       let spec := specResolve valid c.reg c.keys
       let n := c.keys.length
       let agrees (f : Nat → List Nat → Outcome) (allTasks : Bool) : Bool :=
